@@ -48,7 +48,7 @@ W("C03", "sanitiser returns on the failing branch", HE, "        if is_relative_
 W("C03", "resolving containment check removed", PY,
   "                    if not is_path_contained(fileish, path):\n                        raise Bad7zFile(f\"Member {f.filename} would be extracted out of target directory.\")\n", "", "R03.4")
 W("C03", "parallel extraction although links are present", PY,
-  "                parallel=(not self.password_protected and not self._filePassed and not has_links),\n                q=self.q,", "                parallel=(not self.password_protected and not self._filePassed),\n                q=self.q,", "R03.4")
+  "        parallel = not self.password_protected and not self._filePassed and not has_links and not in_memory\n", "        parallel = not self.password_protected and not self._filePassed and not in_memory\n", "R03.4")
 W("C03", "utime on a name taken from the archive", PY, "                os.utime(str(outfilename), times=(lastmodified, lastmodified))\n", "                os.utime(properties[\"filename\"], times=(lastmodified, lastmodified))\n", "R03.1")
 W("C03", "is_path_valid without canonical_path", HE, "        return is_relative_to(canonical_path(target), parent)\n", "        return is_relative_to(target, parent)\n", "R03.3")
 # ---------------------------------------------------------------- C04
@@ -100,7 +100,7 @@ W("C08", "unpacksizes left None without Size property", AI,
   "        else:\n            # without a Size property a folder holds at most one substream, which has the size of the folder\n            self.unpacksizes = []\n            for i in range(len(self.num_unpackstreams_folders)):\n                if self.num_unpackstreams_folders[i] > 1:\n                    raise Bad7zFile(\"sizes of substreams are missing\")\n                elif self.num_unpackstreams_folders[i] == 1:\n                    self.unpacksizes.append(folders[i].get_unpack_size())\n", "", "R08.6")
 # ---------------------------------------------------------------- C09
 W("C09", "extract() stops normalising targets", PY, "            targets = [remove_trailing_slash(target) for target in targets]\n", "            targets = list(targets)\n", "R09.1")
-W("C09", "continue before registering None", PY, "                if f.filename not in targets:\n                    self.worker.register_filelike(f.id, None)\n                    continue\n", "                if f.filename not in targets:\n                    continue\n", "R09.2")
+W("C09", "continue before registering None", PY, "                if member_name not in targets:\n                    self.worker.register_filelike(f.id, None)\n                    continue\n", "                if member_name not in targets:\n                    continue\n", "R09.2")
 W("C09", "just_check not cleared", PY, "                self._check(fp, just_check, src_end)\n                just_check = []\n", "                self._check(fp, just_check, src_end)\n", "R09.3")
 W("C09", "delayed check moved after the delivering branch", PY, "                # delayed execution of crc check.\n                self._check(fp, just_check, src_end)\n                just_check = []\n                if not isinstance(fileish, MemIO):", "                if not isinstance(fileish, MemIO):", "R09.3")
 W("C09", "empty-stream members accumulated for skip-decoding", PY, "                if not f.emptystream:\n                    just_check.append(f)\n", "                just_check.append(f)\n", "R09.3")
@@ -122,7 +122,7 @@ W("C11", "password check after chain construction", CO,
 W("C11", "encoded arm tested before encrypted", AI, "        if encrypted:\n            filters = DEFAULT_FILTERS.ENCRYPTED_HEADER_FILTER\n            startpos, headercrc = self._encode_header(file, afterheader, filters)\n        elif encoded:\n            filters = DEFAULT_FILTERS.ENCODED_HEADER_FILTER\n            startpos, headercrc = self._encode_header(file, afterheader, filters)\n",
   "        if encoded:\n            filters = DEFAULT_FILTERS.ENCODED_HEADER_FILTER\n            startpos, headercrc = self._encode_header(file, afterheader, filters)\n        elif encrypted:\n            filters = DEFAULT_FILTERS.ENCRYPTED_HEADER_FILTER\n            startpos, headercrc = self._encode_header(file, afterheader, filters)\n", "R11.3")
 W("C11", "encrypted default chain without AES", "py7zr/properties.py", "    ENCRYPTED_ARCHIVE_FILTER = [{\"id\": FILTER_LZMA2, \"preset\": 7 | PRESET_DEFAULT}, {\"id\": FILTER_CRYPTO_AES256_SHA256}]\n", "    ENCRYPTED_ARCHIVE_FILTER = [{\"id\": FILTER_LZMA2, \"preset\": 7 | PRESET_DEFAULT}]\n", "R11.2")
-W("C11", "password encoded as utf-8 on the reader side", CO, "            key = calculate_key(password.encode(\"utf-16LE\"), numcyclespower, salt, \"sha256\")\n", "            key = calculate_key(password.encode(\"utf-8\"), numcyclespower, salt, \"sha256\")\n", "R07.6")
+W("C11", "password encoded as utf-8 on the reader side", CO, "        key = calculate_key(password.encode(\"utf-16LE\"), numcyclespower, salt, \"sha256\")\n", "        key = calculate_key(password.encode(\"utf-8\"), numcyclespower, salt, \"sha256\")\n", "R07.6")
 # ---------------------------------------------------------------- C12
 W("C12", "mode r opens r+b", PY, "                \"r\": \"rb\",\n", "                \"r\": \"r+b\",\n", "R12.2")
 W("C12", "reset writes to the archive", PY, "            self.fp.seek(self._packed_start())\n            self.worker = Worker(self.files, self._packed_start(), self.header, self.mp)\n            self._reset_decompressor()\n",
